@@ -184,7 +184,8 @@ func phiBoolExpr(phi *ssa.Phi, depth int) (*BExpr, error) {
 	// The region must be acyclic: refuse loop-header phis.
 	for _, p := range blk.Preds {
 		if blk.Dominates(p) {
-			return nil, fmt.Errorf("loop-carried boolean %s", Render(phi))
+			// loop-carried flag: opaque atom
+			return &BExpr{Op: "atom", Atom: Render(phi)}, nil
 		}
 	}
 	paths, complete := EnumPaths(dom, func(b *ssa.BasicBlock) bool { return b == blk }, 4096)
